@@ -66,6 +66,12 @@ Definition ledger : list (string * coverage) := [
    ByTheorem "no_panic_select_value" _ no_panic_select_value "same selection by priority as eval/merge.rs merge_fields (== / > / < of MergePriority are exhaustive)");
   ("core/src/ast/compat.rs::merge_fields:debug_assert#1",
    Unproved "not modelled");
+  ("core/src/error/mod.rs::path_span:unwrap#1",
+   Unproved "FixedTypeParser.parse_tolerant_compat(format!(""{ty}"")).unwrap(): relies on the printer/parser law `every runtime type printed by core/src/pretty.rs parses back as a type` (taken whenever the type of a label or of an ArrowTypeMismatch has no source position); the runtime printer is not modelled (coq/Surface models the AST printer, property C14): the law is checked directly on the implementation on every run (checks/c10.py run_type_law: every type shape in every type context, composed twice, ~5000 types; any type the pipeline parses) and the path is exercised by the error matrix");
+  ("core/src/error/mod.rs::path_span:expect#1",
+   Unproved "ty_path::span on the re-parsed type: every node of a freshly parsed type has a position and the path was computed on the same type up to printing; relies on the same law plus stability of the printed form (checked by run_type_law: print(parse(print(T))) = print(T))");
+  ("core/src/error/mod.rs::report_ty_path:panic#1",
+   Unproved "not modelled");
   ("core/src/eval/cache/lazy.rs::ThunkData::init_cached:assert#1",
    Unproved "revertible thunk protocol: cached is set by build_cached/init_cached before it is read; modelled in coq/Mech (thunk machine) but no theorem is stated about this unwrap");
   ("core/src/eval/cache/lazy.rs::ThunkData::closure:expect#1",
